@@ -52,9 +52,13 @@ impl MergeCtx {
         match state {
             ExecutedState::Call(CallResult::Executed(ValueRef::Stream { generation, .. })) => Ok(*generation),
             // such Aps are always preceded by Fold where corresponding stream could be used
-            // so it's been already checked that res_generation is well-formed
-            // and accessing 0th element is safe here
-            ExecutedState::Ap(ap_result) => Ok(ap_result.res_generations[0]),
+            // so it's been already checked that res_generation is well-formed,
+            // but data from a malicious peer could carry an Ap without generations
+            ExecutedState::Ap(ap_result) => ap_result
+                .res_generations
+                .first()
+                .copied()
+                .ok_or_else(|| KeeperError::NoStreamState { state: state.clone() }),
             state => Err(KeeperError::NoStreamState { state: state.clone() }),
         }
     }
